@@ -216,9 +216,11 @@ where
             p
         );
 
-        let k = (-p.log2()) as usize;
+        // truncation must not produce an unusable filter (`p > 0.5` or tiny `n`): at least one hash
+        // function and one bit are required
+        let k = ((-p.log2()) as usize).max(1);
         let ln2 = (2f64).ln();
-        let m = (-((n as f64) * p.ln()) / (ln2 * ln2)) as usize;
+        let m = ((-((n as f64) * p.ln()) / (ln2 * ln2)) as usize).max(1);
 
         Self::with_params_and_hash(m, k, buildhasher)
     }
